@@ -3250,6 +3250,7 @@ pub fn is_type(ty: &ObjType, arg: &Obj) -> NRes<bool> {
     Ok(match (ty, arg) {
         (ObjType::Null, Obj::Null) => true,
         (ObjType::Int, Obj::Num(NNum::Int(_))) => true,
+        (ObjType::Rational, Obj::Num(NNum::Rational(_))) => true,
         (ObjType::Float, Obj::Num(NNum::Float(_))) => true,
         (ObjType::Complex, Obj::Num(NNum::Complex(_))) => true,
         (ObjType::Number, Obj::Num(_)) => true,
@@ -3263,6 +3264,7 @@ pub fn is_type(ty: &ObjType, arg: &Obj) -> NRes<bool> {
         (ObjType::Type, Obj::Func(Func::Type(_), _)) => true,
         (ObjType::Any, _) => true,
         (ObjType::Struct(s1), Obj::Instance(s2, _)) => s1.id == s2.id,
+        (ObjType::StructInstance, Obj::Instance(..)) => true,
         (ObjType::Satisfying(renv, func), x) => func.run1(renv, x.clone())?.truthy(),
         _ => false,
     })
